@@ -59,6 +59,7 @@ package render
 //@   ensures [snaps-to-corner-1] abs(x - v1) < epsilon && abs(x - v2) >= epsilon ==> r == p1
 //@   ensures [snaps-to-corner-2] abs(x - v2) < epsilon && abs(x - v1) >= epsilon ==> r == p2
 //@   ensures [same-vertex-from-either-cell] r == mcInterpolate(p2, p1, v2, v1, x)
+//@   ensures [translation-equivariant] forall c v3.Vec :: mcInterpolate(p1.Add(c), p2.Add(c), v1, v2, x) == r.Add(c)
 //@ end
 
 //@ func msInterpolate
@@ -71,6 +72,7 @@ package render
 //@   ensures [snaps-to-corner-1] abs(x - k1) < epsilon && abs(x - k2) >= epsilon ==> r == p1
 //@   ensures [snaps-to-corner-2] abs(x - k2) < epsilon && abs(x - k1) >= epsilon ==> r == p2
 //@   ensures [same-vertex-from-either-cell] r == msInterpolate(p2, p1, k2, k1, x)
+//@   ensures [translation-equivariant] forall c v2.Vec :: msInterpolate(p1.Add(c), p2.Add(c), k1, k2, x) == r.Add(c)
 //@ end
 
 //-----------------------------------------------------------------------------
@@ -842,6 +844,31 @@ package render
 //@   ensures [within-h-squared-over-eight-times-the-inner-radius-of-the-sphere] rad - nv <= sq(hh)/(8*(rad - hh)) && rad - nv >= 0
 //@ end
 
+// the same bound for a sphere about any centre c: interpolation commutes with
+// translation (contract of mcInterpolate), so the vertex minus c is the vertex
+// of the translated edge
+//@ lemma mc_vertex_on_any_sphere(c v3.Vec, p1 v3.Vec, p2 v3.Vec, rad float64)
+//@   property C06
+//@   requires rad > 0
+//@   prelet q1 = p1.Sub(c)
+//@   prelet q2 = p2.Sub(c)
+//@   prelet v1 = sqrt(q1.Length2()) - rad
+//@   prelet v2 = sqrt(q2.Length2()) - rad
+//@   requires v1 <= -1e-12 && v2 >= 1e-12
+//@   prelet hh = sqrt(q2.Sub(q1).Length2())
+//@   requires hh < rad
+//@   example c == v3.Vec{0, 0, 0}
+//@   let v = merged(mcInterpolate(p1, p2, v1, v2, 0))
+//@   let w = merged(mcInterpolate(q1, q2, v1, v2, 0))
+//@   focus no-definitions
+//@   assert [edge-unchanged-by-translation] q2.Sub(q1) == p2.Sub(p1)
+//@   assert [vertex-translates-with-the-edge] v.Sub(c) == w
+//@   let dist = sqrt(v.Sub(c).Length2())
+//@   focus requires vertex-translates-with-the-edge
+//@   use mc_vertex_on_a_sphere(q1, q2, rad)
+//@   ensures [within-h-squared-over-eight-times-the-inner-radius-of-the-sphere] rad - dist <= sq(hh)/(8*(rad - hh)) && rad - dist >= 0
+//@ end
+
 //@ lemma triangle_inequality_3d(a v3.Vec, b v3.Vec)
 //@   property C06
 //@   let na = sqrt(a.Length2())
@@ -875,6 +902,31 @@ package render
 //@ end
 
 // C08: the same bound for marching squares on a circle
+// the same bound for a circle about any centre c: interpolation commutes with
+// translation (contract of msInterpolate), so the vertex minus c is the vertex
+// of the translated edge
+//@ lemma ms_endpoint_on_any_circle(c v2.Vec, p1 v2.Vec, p2 v2.Vec, rad float64)
+//@   property C08
+//@   requires rad > 0
+//@   prelet q1 = p1.Sub(c)
+//@   prelet q2 = p2.Sub(c)
+//@   prelet v1 = sqrt(q1.Length2()) - rad
+//@   prelet v2 = sqrt(q2.Length2()) - rad
+//@   requires v1 <= -1e-12 && v2 >= 1e-12
+//@   prelet hh = sqrt(q2.Sub(q1).Length2())
+//@   requires hh < rad
+//@   example c == v2.Vec{0, 0}
+//@   let v = merged(msInterpolate(p1, p2, v1, v2, 0))
+//@   let w = merged(msInterpolate(q1, q2, v1, v2, 0))
+//@   focus no-definitions
+//@   assert [edge-unchanged-by-translation] q2.Sub(q1) == p2.Sub(p1)
+//@   assert [vertex-translates-with-the-edge] v.Sub(c) == w
+//@   let dist = sqrt(v.Sub(c).Length2())
+//@   focus requires vertex-translates-with-the-edge
+//@   use ms_endpoint_on_a_circle(q1, q2, rad)
+//@   ensures [within-h-squared-over-eight-times-the-inner-radius-of-the-circle] rad - dist <= sq(hh)/(8*(rad - hh)) && rad - dist >= 0
+//@ end
+
 //@ lemma triangle_inequality_2d(a v2.Vec, b v2.Vec)
 //@   property C08
 //@   let na = sqrt(a.Length2())
